@@ -29,7 +29,6 @@ def generate(rng, tier):
     for i in range(n):
         g = muxgen.Gen(rng, plain_ok=True, heads=False, fatal=0.15 if rng.random() < 0.3 else 0.0,
                        max_depth=rng.choice([1, 2, 3]))
-        eqmix = False
         g.no_early = i % 3 == 0      # no take/first: the whole pipeline (tee_map included) is inside the timed plain model
         typ = muxgen.FLT if rng.random() < 0.1 else muxgen.INT
         ast, _ = g.pipe(typ, 0, rng.randint(1, 5))
@@ -76,23 +75,41 @@ def generate(rng, tier):
                   ([['map', ['nth', rng.randint(0, 1)]]] if rng.random() < 0.3 else [])
             typ, none_items = muxgen.INT, False
             trace = muxgen.gen_trace(rng, typ, max_items=rng.choice([None, 5]))
-        if rng.random() < 0.06:
-            # items that are == but not identical (3 / 3.0, 0 / False / 0.0 / -0.0, 1 / True): which OBJECT a group's
-            # result is must not depend on the execution mode
-            ast = [rng.choice([['last'], ['first'], ['duc', None], ['take', 2], ['max', None, 1], ['min', None, 1],
-                               ['max', None, 0], ['identity'], ['filter', ['id']]])] + \
-                  ([rng.choice([['to_list'], ['batch', 2], ['last'], ['first'], ['take', 2], ['identity']])] if rng.random() < 0.5 else []) + \
-                  ([['map', ['pair', ID_FN, ['const', enc('t')]]]] if rng.random() < 0.3 else [])
-            if muxgen.has_take(ast):
-                ast = strip_fallible(ast)
-            typ, none_items = muxgen.INT, False
-            pool = [enc(v) for v in (3, 3.0, 0, False, 0.0, -0.0, 1, True, 1.0, 2, 2.0)]
-            trace = muxgen.gen_trace(rng, typ, max_items=rng.choice([None, 4]))
-            trace = [(['n', e[1], rng.choice(pool)] if e[0] == 'n' else e) for e in trace]
-            eqmix = True
-        kind = 'groupby' if rng.random() < 0.2 and not eqmix else 'keys'
+        kind = 'groupby' if rng.random() < 0.2 else 'keys'
         cases.append({'ast': ast, 'trace': trace, 'kind': kind,
                       'km': ['isnone'] if none_items else (['gt', enc(2.0)] if typ == muxgen.FLT else g.int_key())})
+    g = muxgen.Gen(rng, plain_ok=True, heads=False)
+    reps = {'quick': 1, 'thorough': 12, 'search': 0}[tier]
+    # (a) every dual-mode operator as the FIRST operator of a tee_map branch (it is handed the published connectable,
+    #     a subclass of the mux observable class, not the source itself), in both branch positions
+    firsts = [['take', 2], ['take', 1], ['first'], ['last'], ['filter', ['isodd']], ['map', ['add', enc(1)]], ['count', 0],
+              ['scan', ['add'], enc(0), 0, None], ['duc', None], ['batch', 2], ['to_list'], ['identity'], ['fill_none', enc(0)],
+              ['clip', enc(0), enc(5)], ['max', None, 0], ['flat_map'], ['assert1', ['le']], ['do_action'], ['sum', None, 0]]
+    for _ in range(reps):
+        for first in firsts:
+            for pos in (0, 1):
+                b0 = ([['map', ['pair', ID_FN, ID_FN]]] if first == ['flat_map'] else []) + [first]
+                other = [rng.choice([['identity'], ['map', g.int_map()], ['count', 0]])]
+                ast = [['tee', rng.choice(['zip', 'merge', 'combine_latest']), [b0, other] if pos == 0 else [other, b0]]]
+                trace = muxgen.gen_trace(rng, muxgen.INT, max_items=rng.choice([None, 5]), sorted_=(first[0] == 'assert1'))
+                cases.append({'ast': ast, 'trace': trace, 'kind': rng.choice(['keys', 'groupby']), 'km': g.int_key()})
+    # (b) items that are == but not identical (3 / 3.0, 0 / False / 0.0 / -0.0, 1 / True): which OBJECT a group's result
+    #     is must not depend on the execution mode; every operator that selects or keeps items
+    pool = [enc(v) for v in (3, 3.0, 0, False, 0.0, -0.0, 1, True, 1.0, 2, 2.0)]
+    keepers = [['last'], ['first'], ['duc', None], ['take', 2], ['max', None, 1], ['min', None, 1], ['max', None, 0], ['min', None, 0],
+               ['identity'], ['filter', ['id']], ['to_list'], ['batch', 2]]
+    for _ in range(reps):
+        for op in keepers:
+            for second in ([], [rng.choice([['to_list'], ['batch', 2], ['last'], ['first'], ['take', 2], ['identity']])]):
+                if op[0] in ('to_list', 'batch') and second:
+                    continue
+                ast = [op] + second + ([['map', ['pair', ID_FN, ['const', enc('t')]]]] if rng.random() < 0.3 else [])
+                if muxgen.has_take(ast):
+                    ast = strip_fallible(ast)
+                trace = muxgen.gen_trace(rng, muxgen.INT, max_items=rng.choice([None, 4]))
+                # runs of equal-but-not-identical values, also at the end of a group
+                trace = [(['n', e[1], rng.choice(pool)] if e[0] == 'n' else e) for e in trace]
+                cases.append({'ast': ast, 'trace': trace, 'kind': 'keys', 'km': ['id']})
     return cases
 
 
